@@ -55,7 +55,7 @@ def run(v, tier, seed, replay=None):
         if got != want:
             bad += 1
             v.violation('C09:%s' % c['mode'], 'known objects are lost or altered when %s sits between them: %d delivered, %d expected; layout %s' % (
-                {'filler': 'filler', 'unknown': 'an object of unknown type', 'mixed': 'filler and unknown-type objects'}[c['mode']],
+                {'filler': 'filler', 'unknown': 'an object of unknown type', 'mixed': 'filler and unknown-type objects', 'unknown-large': 'an unknown-type object of 64 KiB or more (payload full of object images)'}.get(c['mode'], c['mode']),
                 len(got) if got is not None else -1, len(want), c['layout']),
                 {'file_hex': c['data'].hex()[:8000], 'layout': c['layout'], 'implementation': c['impl'][:600]})
     ex, nstrings, e, e2 = exhaustive_strings(meta, tier)
@@ -79,7 +79,7 @@ def run(v, tier, seed, replay=None):
         'obligations': info['obligations'], 'discharged': info['discharged'], 'checker_cmd': info['checker_cmd'],
         'trusted_base': TRUSTED + info['print_assumptions'], 'failed_obligations': info['failed'],
         'evaluations': len(cs) + nstrings, 'distinct_nontrivial': len(set(c['data'] for c in cs)) + nstrings,
-        'rule': 'hand-assembled files: known objects (8 classes) with arbitrary fillers not containing the signature (incl. the prefixes L, LO, LOB, LOL, LOLOB directly before an object) and objects of %d unknown type codes with declared sizes 16..100 (all residues mod 4) in between, cut into method-0 / zlib containers of sizes {1,2,3,5,7,16,33,48,whole}; plus EVERY string over {L,O,B,J,x} up to length %d that does not create a signature, placed directly before a real object. Oracle: the delivered objects are exactly the known objects, each equal to its own object-level decoding. Non-trivial = distinct file / distinct filler string.' % (19, 5 if tier == 'quick' else 7),
+        'rule': 'hand-assembled files: known objects (8 classes) with arbitrary fillers not containing the signature (incl. the prefixes L, LO, LOB, LOL, LOLOB directly before an object) and objects of %d unknown type codes with declared sizes 16..100 (all residues mod 4) in between, unknown objects of 64 KiB..200 KB whose payload is full of images of known objects, cut into method-0 / zlib containers of sizes {1,2,3,5,7,16,33,48,whole}; plus EVERY string over {L,O,B,J,x} up to length %d that does not create a signature, placed directly before a real object. Oracle: the delivered objects are exactly the known objects, each equal to its own object-level decoding. Non-trivial = distinct file / distinct filler string.' % (19, 5 if tier == 'quick' else 7),
         'exhaustive_filler_strings': nstrings, 'assembled_streams': dict(collections.Counter(c['mode'] for c in cs)),
         'correspondence_disagreements': ndis, 'oracle_failures': bad,
         'samples': [str(c['layout']) for c in cs[:3]] + [c['data'].hex()[:200] for c in cs[:1]],
